@@ -69,6 +69,7 @@ def map_scenario(sc):
         return addinfo[h][2] if h in addinfo else 1000 + h
     name2hid = {}        # a name is reused when a handler is re-added under a stopped handler's name
     gbind = {}           # handler goroutine / handleClose goroutine -> handler number (bound at its first stamp)
+    inmap_h = set(); started_h = set()
     named = {}           # name -> all handler numbers that ever had it, in order
     hc_taken = set()     # handler numbers whose handleClose goroutine is identified
     cancelled_h = set()  # handlers whose own context is known to be cancelled (Stop called / loop ended)
@@ -116,7 +117,7 @@ def map_scenario(sc):
         return None
     def do_add(e):
         k = e.get('k') or []
-        h = nadd[0]; name2hid[k[0]] = h; named.setdefault(k[0], []).append(h)
+        h = nadd[0]; name2hid[k[0]] = h; named.setdefault(k[0], []).append(h); inmap_h.add(h)
         nadd[0] += 1; maplen[0] += 1
         signalled = e['p'].endswith('signalled')
         if signalled and not FIXED_D14 and wpc[0] == 'pre':
@@ -231,6 +232,7 @@ def map_scenario(sc):
             x = who(g); t = call.get(g, ('rh', 0))[1]; lab(x + ' CStep', ['ARHRet %d false' % t])
         elif w in ('rh.subscribed', 'rh.subscribe_failed'):
             x = who(g); h = hid(k[0]); ok = w == 'rh.subscribed'
+            if ok: started_h.add(h)
             lab('%s (CPick %d %s)' % (x, h, 'true' if ok else 'false'), ['ASubscribe %d %s' % (h, 'true' if ok else 'false')])
         elif w == 'rh.close_started':
             lab(who(g) + ' CStep')
@@ -283,7 +285,12 @@ def map_scenario(sc):
             t = call[g][1] if x.startswith('LT') else None
             ret = ['ACloseRet %d %s' % (t, closeret[t])] if t in closeret else None
             if x == 'LWatch': ret = []
-            if w == 'close.closing': pending_closing.append(x + ' CStep')
+            if w == 'close.closing':
+                pending_closing.append(x + ' CStep')
+                if FIXED_D16:       # Close releases and removes the handlers that were never started
+                    gone = [hh for hh in inmap_h if hh not in started_h]
+                    for hh in gone: inmap_h.discard(hh)
+                    maplen[0] -= len(gone)
             elif w == 'close.waited': lab(x + (' CStep' if k[0] == 'false' else ' CAlt'))
             elif w in ('close.already', 'close.closed'): lab(x + ' CStep', ret)
             else: lab(x + ' CStep')
@@ -300,7 +307,7 @@ def map_scenario(sc):
             if loop_pc.get(h) == 'pubclose': lab('LLoop %d' % h)
             lab('LLoop %d' % h); loop_pc[h] = 'delete'
         elif w == 'loop.locked':
-            lab('LLoop %d' % hid(k[0], g, bind=True)); maplen[0] -= 1
+            hh = hid(k[0], g, bind=True); lab('LLoop %d' % hh); maplen[0] -= 1; inmap_h.discard(hh)
         elif w == 'loop.close_stopped':
             lab('LLoop %d' % hid(k[0], g, bind=True))
         elif w == 'hc.closing':
